@@ -7,6 +7,7 @@ export GOFLAGS=-mod=mod GOPROXY=off GOSUMDB=off GOTOOLCHAIN=local
 cd "$wt" || exit 3
 git checkout -q --detach main 2>/dev/null; git checkout -q -- . ; find . -name zz_demo_test.go -not -path "./mutants/*" -delete
 pk=$(grep -m1 "^package" $d/zz_demo_test.go | awk '{print $2}')
+pk=${pk%_test}
 case "$pk" in
   packet) dir=. ;;
   *) dir=./handlers/$pk ;;
